@@ -26,6 +26,34 @@ def main():
     from fastparquet.cencoding import NumpyIO
     assert fastparquet.__file__.startswith(root), fastparquet.__file__
 
+    # ---- results held across calls -------------------------------------------------------------------------------
+    # every value a codec function RETURNS is kept alive (a ring of the last 48) together with a snapshot of what it showed
+    # right after the call; when it leaves the ring and at the end of the chunk it is looked at again: a result must stay
+    # what it was, whatever the library decoded or encoded in between (no views of module-level / reused buffers)
+    HELD = []
+    cur = {"i": None}
+
+    def snap(obj):
+        if isinstance(obj, (bytes, bytearray, memoryview)):
+            return bytes(obj).hex()
+        a = np.asarray(obj)
+        if a.dtype.kind == "O":
+            return [None if x is None else (x.encode("utf-8", "surrogatepass").hex() if isinstance(x, str) else bytes(x).hex()) for x in a]
+        return [a.dtype.str, np.ascontiguousarray(a).tobytes().hex()]
+
+    def hold(obj):
+        HELD.append((cur["i"], obj, snap(obj)))
+        return obj
+
+    def recheck(out, upto):
+        """re-examine (and drop) all but the newest `upto` held results"""
+        while len(HELD) > upto:
+            i, obj, was = HELD.pop(0)
+            now = snap(obj)
+            if now != was:
+                out.write(json.dumps([i, ["changed", str(was)[:300], str(now)[:300]]]) + "\n")
+                out.flush()
+
     def inbuf(hexs):
         b = bytes.fromhex(hexs)
         a = np.empty(len(b), dtype=np.uint8)      # exact-size heap allocation (no trailing NUL of a bytes object)
@@ -85,6 +113,60 @@ def main():
         def __exit__(self, *exc):
             self.mod.read_rle_bit_packed_hybrid = self.orig
 
+    def codec_threads(c):
+        """four threads, each calling ONE codec function on ITS OWN input over and over with a very short switch interval and
+        looking at the result a moment later: it must still be the value computed for that input"""
+        import threading
+        import time
+        import pandas as pd
+        from fastparquet import parquet_thrift as pt, writer
+        bse = pt.SchemaElement(type=pt.Type.BOOLEAN)
+        jobs = []
+        for k in range(4):
+            bits = [(i * (k + 3) + k) % (k + 2) == 0 for i in range(c["n"] + k)]
+            packed = np.packbits(np.array(bits + [False] * (-len(bits) % 8), dtype=bool), bitorder="little").tobytes()
+            items = [bytes([65 + k]) * (i % (k + 3)) + b"\x00" for i in range(c["n"] // 4 + k)]
+            ba = b"".join(len(x).to_bytes(4, "little") + x for x in items)
+            ints = np.arange(c["n"] + k, dtype="int64") * (k + 1)
+            codes = pd.Series(np.arange(c["n"] + k, dtype="int16") % (100 + k))
+            nul = pd.Series(np.where(np.arange(c["n"] + k) % (k + 2) == 0, np.nan, 1.0))
+            jobs.append({
+                "read_plain_boolean": lambda p=packed, n=len(bits): encoding.read_plain_boolean(p, n),
+                "read_plain(BOOLEAN)": lambda p=packed, n=len(bits): encoding.read_plain(p, pt.Type.BOOLEAN, n),
+                "read_plain(BYTE_ARRAY)": lambda b=ba, n=len(items): encoding.read_plain(b, pt.Type.BYTE_ARRAY, n),
+                "unpack_byte_array": lambda b=ba, n=len(items): speedups.unpack_byte_array(b, n),
+                "read_plain(INT64)": lambda a=ints: encoding.read_plain(a.tobytes(), pt.Type.INT64, len(a)),
+                "pack_byte_array": lambda it=items: speedups.pack_byte_array(list(it)),
+                "encode_plain(BOOLEAN)": lambda b=bits: writer.encode_plain(pd.Series(np.array(b, dtype=bool)), bse),
+                "encode_dict": lambda s_=codes: writer.encode_dict(s_, None),
+                "make_definitions": lambda s_=nul: writer.make_definitions(s_, False, 1)[0],
+            })
+        names = sorted(jobs[0])
+        expected = [{nm: snap(j[nm]()) for nm in names} for j in jobs]
+        problems = []
+
+        def worker(k):
+            for _ in range(c["rounds"]):
+                for nm in names:
+                    try:
+                        r = jobs[k][nm]()
+                        time.sleep(0)
+                        if snap(r) != expected[k][nm]:
+                            problems.append("%s in thread %d: the result is not the value of this thread's input any more" % (nm, k))
+                    except Exception as e:      # noqa
+                        problems.append("%s in thread %d: %s: %s" % (nm, k, type(e).__name__, str(e)[:80]))
+        old = sys.getswitchinterval()
+        sys.setswitchinterval(1e-6)
+        try:
+            ts = [threading.Thread(target=worker, args=(k,)) for k in range(4)]
+            for t in ts:
+                t.start()
+            for t in ts:
+                t.join()
+        finally:
+            sys.setswitchinterval(old)
+        return ["ok", sorted(set(problems))[:6], len(problems)]
+
     def run(c):
         fn = c["fn"]
         if fn == "read_bitpacked":
@@ -129,16 +211,16 @@ def main():
             return ["ok", int(cencoding.width_from_max_int(c["x"]))]
         if fn == "pack_byte_array":
             items = [bytes.fromhex(x) for x in c["items"]]
-            return ["ok", speedups.pack_byte_array(items).hex()]
+            return ["ok", hold(speedups.pack_byte_array(items)).hex()]
         if fn == "unpack_byte_array":
             a = inbuf(c["inp"])
             if len(a) == 0:
                 a = np.empty(1, dtype=np.uint8)[1:]
-            out = speedups.unpack_byte_array(a, c["n"], utf=c.get("utf", False))
+            out = hold(speedups.unpack_byte_array(a, c["n"], utf=c.get("utf", False)))
             return ["ok", [None if x is None else (x.encode("utf-8", "surrogatepass").hex() if isinstance(x, str) else bytes(x).hex())
                            for x in out]]
         if fn == "read_plain_boolean":
-            out = encoding.read_plain_boolean(bytes.fromhex(c["inp"]), c["count"])
+            out = hold(encoding.read_plain_boolean(bytes.fromhex(c["inp"]), c["count"]))
             return ["ok", [int(x) for x in np.asarray(out).view(np.uint8)]]
         if fn == "read_plain":
             out = encoding.read_plain(bytes.fromhex(c["inp"]), c["type"], c["count"], c.get("width", 0))
@@ -151,7 +233,7 @@ def main():
                 raw = np.frombuffer(raw, dtype=np.uint8).copy()
             elif c["buf"] == "memoryview":
                 raw = memoryview(np.frombuffer(raw, dtype=np.uint8).copy())
-            out = encoding.read_plain(raw, getattr(pt.Type, c["type"]), c["count"], c["width"], utf=c["utf"], stat=c["stat"])
+            out = hold(encoding.read_plain(raw, getattr(pt.Type, c["type"]), c["count"], c["width"], utf=c["utf"], stat=c["stat"]))
             return ["ok", items_view(out, c["type"]), str(getattr(out, "dtype", type(out)))]
         if fn == "ba_roundtrip":
             from fastparquet import parquet_thrift as pt
@@ -159,14 +241,14 @@ def main():
             src = [x.decode("utf-8") for x in items] if c["utf"] else items
             packed = speedups.pack_byte_array(src) if not c["utf"] else speedups.pack_byte_array([x.encode("utf-8") for x in src])
             a = np.frombuffer(packed, dtype=np.uint8).copy() if len(packed) else np.empty(1, dtype=np.uint8)[1:]
-            back = speedups.unpack_byte_array(a, len(items), utf=c["utf"])
-            back2 = encoding.read_plain(packed, pt.Type.BYTE_ARRAY, len(items), utf=c["utf"])
+            back = hold(speedups.unpack_byte_array(a, len(items), utf=c["utf"]))
+            back2 = hold(encoding.read_plain(packed, pt.Type.BYTE_ARRAY, len(items), utf=c["utf"]))
             return ["ok", items_view(back, "BYTE_ARRAY"), items_view(back2, "BYTE_ARRAY")]
         if fn == "encode_dict":
             import pandas as pd
             from fastparquet import writer
             data = pd.Series(np.array(c["vals"], dtype=c["dtype"]))
-            enc = bytes(writer.encode_dict(data, None))
+            enc = bytes(hold(writer.encode_dict(data, None)))
             # decoded back by the real decoder, the way core.read_data_page does for a foreign file (general hybrid branch)
             back = None
             if len(enc) > 1 and c["vals"] and not exact and data.values.dtype.itemsize <= 2:
@@ -184,13 +266,14 @@ def main():
             from fastparquet import writer, parquet_thrift
             data = pd.Series(np.array(c["vals"], dtype=bool))
             se = parquet_thrift.SchemaElement(type=parquet_thrift.Type.BOOLEAN)
-            return ["ok", bytes(writer.encode_plain(data, se)).hex()]
+            return ["ok", bytes(hold(writer.encode_plain(data, se))).hex()]
         if fn == "make_definitions":
             import pandas as pd
             from fastparquet import writer
             vals = [None if v is None else float(v) for v in c["vals"]]
             data = pd.Series(np.array([np.nan if v is None else v for v in vals], dtype="float64"))
             block, out = writer.make_definitions(data, c["no_nulls"], c["version"])
+            hold(block)
             # the packed not-null mask as the writer's own boolean packing produces it (parameter of the regenerated model)
             from fastparquet import parquet_thrift
             packed = bytes(writer.encode_plain(data.notnull(), parquet_thrift.SchemaElement(type=parquet_thrift.Type.BOOLEAN)))
@@ -214,6 +297,9 @@ def main():
                                    total_uncompressed_size=len(page), total_compressed_size=len(page), data_page_offset=0)
             with Spy() as spy:
                 defi, rep, values = core.read_data_page(io.BytesIO(page), helper, header, md, selfmade=bool(c.get("selfmade")))
+            hold(values)
+            if defi is not None:
+                hold(defi)
             return ["ok", [int(x) for x in np.asarray(values)], None if defi is None else [int(x) for x in np.asarray(defi)],
                     str(np.asarray(values).dtype), spy.calls]
         if fn == "page_v2_dict":
@@ -247,6 +333,71 @@ def main():
                 core.read_data_page_v2(io.BytesIO(page), helper, col_se, h2, md, Ident(), assign, 0, bool(c.get("use_cat")), 0, ph,
                                        selfmade=bool(c.get("selfmade")))
             return ["ok", [None if (x != x) else int(x) for x in assign], None, str(assign.dtype), spy.calls]
+        if fn == "codec_threads":
+            return codec_threads(c)
+        if fn == "dict_roundtrip":
+            # the REAL encoder's output through the REAL page readers: writer.encode_dict on the codes pandas holds for a
+            # categorical of `ncat` categories, wrapped into a v1 / v2 data page, read back as fastparquet reads its own files
+            import io
+            import pandas as pd
+            from fastparquet import parquet_thrift as pt, schema, core, writer
+            cdt = pd.Categorical.from_codes([0], categories=range(c["ncat"])).codes.dtype     # pandas' code dtype for that many categories
+            codes = np.array(c["codes"], dtype=cdt)
+            enc = bytes(writer.encode_dict(pd.Series(codes), None))
+            n = c["n"]
+            lv = c["levels"]
+            root_se = pt.SchemaElement(name="schema", num_children=1)
+            col_se = pt.SchemaElement(name="c", type=pt.Type.INT32,
+                                      repetition_type=pt.FieldRepetitionType.OPTIONAL if c["optional"] else pt.FieldRepetitionType.REQUIRED)
+            helper = schema.SchemaHelper([root_se, col_se])
+            head = b""
+            if c["optional"]:
+                bits = bytearray((n + 7) // 8)
+                for i, b_ in enumerate(lv):
+                    bits[i // 8] |= b_ << (i % 8)
+                hv = ((n + 7) // 8) << 1 | 1
+                hb = bytearray()
+                while hv > 127:
+                    hb.append((hv & 127) | 128)
+                    hv >>= 7
+                hb.append(hv)
+                head = bytes(hb) + bytes(bits)
+            out = {"enc": enc.hex(), "codes_dtype": str(cdt)}
+            md = pt.ColumnMetaData(type=pt.Type.INT32, path_in_schema=["c"], codec=0, num_values=n, encodings=[8],
+                                   total_uncompressed_size=0, total_compressed_size=0, data_page_offset=0)
+            for selfmade in (True, False):
+                if not selfmade and enc[:1] == b"\x20":
+                    continue            # 32-bit bit-packed runs through the generic decoder: the open .pyx finding
+                # v1
+                page = (len(head).to_bytes(4, "little") + head if c["optional"] else b"") + enc
+                daph = pt.DataPageHeader(num_values=n, encoding=pt.Encoding.RLE_DICTIONARY,
+                                         definition_level_encoding=pt.Encoding.RLE, repetition_level_encoding=pt.Encoding.RLE)
+                header = pt.PageHeader(type=0, uncompressed_page_size=len(page), compressed_page_size=len(page), data_page_header=daph)
+                try:
+                    defi, rep, values = core.read_data_page(io.BytesIO(page), helper, header, md, selfmade=selfmade)
+                    out["v1/%s" % selfmade] = [int(x) for x in np.asarray(values)]
+                except Exception as e:       # noqa
+                    out["v1/%s" % selfmade] = ["exc", type(e).__name__, str(e)[:100]]
+                # v2: categorical output and dictionary de-reference
+                page = head + enc
+                nn = n - len(c["codes"])
+                for use_cat in (True, False):
+                    h2 = pt.DataPageHeaderV2(num_values=n, num_nulls=nn, num_rows=n, encoding=pt.Encoding.RLE_DICTIONARY,
+                                             definition_levels_byte_length=len(head), repetition_levels_byte_length=0, is_compressed=False)
+                    ph = pt.PageHeader(type=3, uncompressed_page_size=len(page), compressed_page_size=len(page), data_page_header_v2=h2)
+
+                    class Ident:
+                        def __getitem__(self, idx):
+                            # (a dictionary of ncat entries: label k = k; numpy's negative indexing included)
+                            return np.arange(c["ncat"], dtype=np.int64)[np.asarray(idx)]
+                    assign = np.full(n, -7, dtype=cdt) if use_cat else np.full(n, -7, dtype=np.float64 if c["optional"] else np.int64)
+                    try:
+                        core.read_data_page_v2(io.BytesIO(page), helper, col_se, h2, md, Ident(), assign, 0, use_cat, 0, ph,
+                                               selfmade=selfmade)
+                        out["v2/%s/%s" % (selfmade, "cat" if use_cat else "deref")] = [None if (x != x) else int(x) for x in assign]
+                    except Exception as e:       # noqa
+                        out["v2/%s/%s" % (selfmade, "cat" if use_cat else "deref")] = ["exc", type(e).__name__, str(e)[:100]]
+            return ["ok", out]
         if fn == "page_delta":
             # the Python callers of delta_binary_unpack: core.read_data_page / read_data_page_v2 on a DELTA_BINARY_PACKED page
             import io
@@ -300,12 +451,15 @@ def main():
         for i in range(start, len(cases)):
             sys.stderr.write("@@CASE %d\n" % i)
             sys.stderr.flush()
+            cur["i"] = i
             try:
                 r = run(cases[i])
             except BaseException as e:      # noqa
                 r = ["exc", type(e).__name__, str(e)[:200]]
             out.write(json.dumps([i, r]) + "\n")
             out.flush()
+            recheck(out, 48)
+        recheck(out, 0)
 
 
 if __name__ == "__main__":
